@@ -56,7 +56,7 @@ func alphabets(tier string) alphabet {
 		Segs:       []string{"x", ".", ".."},
 		SegDepth:   3,
 		RelQueries: []string{"", "?k=v", "?b=2&a=1", "?a=1;b=2", "?a"},
-		RelFrags:   []string{"", "#f"},
+		RelFrags:   []string{"", "#f", "#"}, // "#" = an empty fragment: present, nothing in it
 		RelWraps:   []wrap{{"", ""}, {`'`, `'`}},
 		RelParents: parents,
 	}
